@@ -331,17 +331,31 @@ theorem exit_E (c : Conn) (h : Nat) (e : Bool) : E c (c.exit h e).1 := by
       · exact E.refl c
     · exact tRollback_E c h
 
+theorem applyChar_dataOnly (db : DB) (b : Bool) : DataOnly db (db.applyChar b) := by
+  unfold DB.applyChar
+  cases b <;> exact ⟨rfl, rfl, rfl, rfl, rfl, rfl⟩
+
 theorem setAutocommit_E (c : Conn) : E c c.setAutocommit.1 := by
   unfold Conn.setAutocommit
   split
   · exact E.refl c
-  · refine andThen_E (connProp_E c) (fun c1 => ?_)
-    exact E.of_data c1 _ ⟨rfl, rfl, rfl, rfl, rfl, rfl⟩
+  · exact andThen_E (connProp_E c) (fun c1 => E.of_data c1 _ (applyChar_dataOnly _ _))
+
+theorem setLogToken_E (c : Conn) : E c c.setLogToken.1 := by
+  unfold Conn.setLogToken
+  exact andThen_E (connProp_E c) (fun c1 => E.of_data c1 _ (applyChar_dataOnly _ _))
+
+theorem setReadUnc_E (c : Conn) : E c c.setReadUnc.1 := by
+  unfold Conn.setReadUnc
+  split
+  · exact E.refl c
+  · exact andThen_E (connProp_E c) (fun c1 => E.of_data c1 _ ⟨rfl, rfl, rfl, rfl, rfl, rfl⟩)
 
 /-- every API call that neither closes nor replaces the Connection -/
 def Op.plain : Op → Bool
   | .begin | .beginNested | .exec _ | .commit | .rollback | .tCommit _ | .tRollback _ | .tClose _
-  | .enter _ | .exitOk _ | .exitExc _ | .invalidate | .autocommit | .arm _ _ | .disarm => true
+  | .enter _ | .exitOk _ | .exitExc _ | .invalidate | .autocommit | .arm _ _ | .disarm
+  | .readUnc | .logToken | .otherOpt | .tokenAuto => true
   | _ => false
 
 theorem step_E (c : Conn) (op : Op) (hp : op.plain = true) : E c (c.step op).1 := by
@@ -359,6 +373,10 @@ theorem step_E (c : Conn) (op : Op) (hp : op.plain = true) : E c (c.step op).1 :
   | exitExc h => exact exit_E c h true
   | invalidate => exact invalidate_E c
   | autocommit => exact setAutocommit_E c
+  | readUnc => exact setReadUnc_E c
+  | logToken => exact setLogToken_E c
+  | otherOpt => exact E.refl c
+  | tokenAuto => exact setAutocommit_E c
   | arm p k => exact E.of_data c _ ⟨rfl, rfl, rfl, rfl, rfl, rfl⟩
   | disarm => exact E.of_data c _ ⟨rfl, rfl, rfl, rfl, rfl, rfl⟩
   | close => simp [Op.plain] at hp
